@@ -841,7 +841,25 @@ fn fold_constraint_set(
         },
         SetOperator::Except => {
             if set.base.per_visible() {
-                Ok(Some(set.base.clone()))
+                let mut base = set.base.clone();
+                // The excepted value set is ignored, but an extension marker that is
+                // written after it applies to the constraint as a whole
+                if let (
+                    Some(
+                        SubtypeElements::SingleValue {
+                            extensible: true, ..
+                        }
+                        | SubtypeElements::ValueRange {
+                            extensible: true, ..
+                        },
+                    ),
+                    SubtypeElements::SingleValue { extensible, .. }
+                    | SubtypeElements::ValueRange { extensible, .. },
+                ) = (&folded_operant, &mut base)
+                {
+                    *extensible = true;
+                }
+                Ok(Some(base))
             } else {
                 Ok(None)
             }
